@@ -310,6 +310,83 @@ theorem stale_entry_leaves_on_time (lazyTtl : Int) (st : UInt32) (chain : Chain)
   rw [failed_refresh_keeps_entry lazyTtl st it chain now h]
   exact gone_is_gone true st it t1 t2 hg
 
+/-! ### Nobody but the cache writes to a stored answer -/
+
+/-- Regenerated from `copyNoOpt` / `saveRespToCache`: the stored message holds `dns.Copy` of every record. -/
+def storeCopies : Bool := Gen.Facts.c05StoredRecordsAreCopies == some true
+/-- Regenerated from `getRespFromCache`: a hit works on, and hands out, `v.resp.Copy()`. -/
+def hitCopies : Bool := Gen.Facts.c05HitHandsOutCopy == some true
+
+theorem records_are_private : storeCopies = true ∧ hitCopies = true := by decide
+
+theorem unaliased_run (lazy : Bool) (st : UInt32) (evs : List Ev) : ∀ (it : Item),
+    aliasRun true true lazy st false it evs = hitsOnly lazy st it evs := by
+  induction evs with
+  | nil => intro it; rfl
+  | cons e es ih =>
+    intro it
+    cases e with
+    | rewrite f => simp only [aliasRun, hitsOnly, liveRewrite]; exact ih it
+    | hit t =>
+      simp only [aliasRun, hitsOnly]
+      cases serve lazy st it t t with
+      | miss => rfl
+      | fresh m => simp only [Bool.not_true, ↓reduceIte]; rw [ih it]
+      | stale m => simp only [Bool.not_true, ↓reduceIte]; rw [ih it]
+
+/-- **TTL rewrites applied to a reply after the cache plugin returned never reach the entry.** Whatever the
+holders of the live replies write into their records, in whatever order with the queries: every query is
+answered exactly as if nobody had touched anything - from the TTLs the answer had when it was stored. -/
+theorem rewrites_never_reach_the_entry (lazy : Bool) (st : UInt32) (it : Item) (evs : List Ev) :
+    aliasRun storeCopies hitCopies lazy st (!storeCopies) it evs = hitsOnly lazy st it evs := by
+  rw [records_are_private.1, records_are_private.2]
+  exact unaliased_run lazy st evs it
+
+/-- every fresh answer of an untouched entry is the stored answer aged by the whole seconds elapsed -/
+theorem hitsOnly_fresh (lazy : Bool) (st : UInt32) (it : Item) (evs : List Ev) :
+    ∀ m, .fresh m ∈ hitsOnly lazy st it evs →
+      ∃ t, Ev.hit t ∈ evs ∧ t < it.msgExp ∧ m = it.msg.mapRR (subRR (UInt32.ofNat ((t - it.stored) / sec))) := by
+  induction evs with
+  | nil => intro m h; simp [hitsOnly] at h
+  | cons e es ih =>
+    intro m h
+    cases e with
+    | rewrite f =>
+      simp only [hitsOnly] at h
+      obtain ⟨t, h1, h2⟩ := ih m h
+      exact ⟨t, List.mem_cons_of_mem _ h1, h2⟩
+    | hit t =>
+      simp only [hitsOnly] at h
+      by_cases hg : it.cacheExp < t
+      · rw [gone_is_gone lazy st it t t hg] at h
+        simp at h
+      · by_cases hf : t < it.msgExp
+        · rw [serve_fresh lazy st it t t hg hf] at h
+          rcases List.mem_cons.mp h with e | hm
+          · injection e with e
+            exact ⟨t, List.mem_cons_self, hf, e⟩
+          · obtain ⟨t', h1, h2⟩ := ih m hm
+            exact ⟨t', List.mem_cons_of_mem _ h1, h2⟩
+        · have hle : it.msgExp ≤ t := Nat.le_of_not_lt hf
+          cases lazy with
+          | false =>
+            rw [not_served_after_expiry st it t t hle] at h
+            simp at h
+          | true =>
+            rw [lazy_stale st it t t hg hle] at h
+            rcases List.mem_cons.mp h with e | hm
+            · cases e
+            · obtain ⟨t', h1, h2⟩ := ih m hm
+              exact ⟨t', List.mem_cons_of_mem _ h1, h2⟩
+
+/-- **A fresh hit after any post-processing of earlier replies** carries the TTLs the answer was stored with
+(for an entry made by `store`: the upstream's, OPT dropped), each lowered by the whole seconds since then. -/
+theorem fresh_hit_after_rewrites (lazy : Bool) (st : UInt32) (it : Item) (evs : List Ev) (m : Msg)
+    (h : .fresh m ∈ aliasRun storeCopies hitCopies lazy st (!storeCopies) it evs) :
+    ∃ t, Ev.hit t ∈ evs ∧ t < it.msgExp ∧ m = it.msg.mapRR (subRR (UInt32.ofNat ((t - it.stored) / sec))) := by
+  rw [rewrites_never_reach_the_entry] at h
+  exact hitsOnly_fresh lazy st it evs m h
+
 /-! ### Guards over the regenerated facts -/
 theorem facts_guard :
     Gen.Facts.c05NxdomainTtl = some 30 ∧ Gen.Facts.c05ServfailTtl = some 5 ∧
@@ -319,7 +396,8 @@ theorem facts_guard :
     Gen.Facts.c05CacheGetHidesExpired = some true ∧ Gen.Facts.c05SubtractCmp = Base.Cmp.gt ∧
     Gen.Facts.c05TtlHelpersSkipOpt = some true ∧ Gen.Facts.c05ForgetDeferred = some true ∧
     Gen.Facts.c05EmptyAnswerPinsCacheTtl = some true ∧ Gen.Facts.c05TtlHelpersVisitEveryRecordOnce = some true ∧
-    Gen.Facts.c05LazyCopyTakenBeforeCachedResp = some true ∧ Gen.Facts.c05RefreshStoresContextResp = some true := by decide
+    Gen.Facts.c05LazyCopyTakenBeforeCachedResp = some true ∧ Gen.Facts.c05RefreshStoresContextResp = some true ∧
+    Gen.Facts.c05StoredRecordsAreCopies = some true ∧ Gen.Facts.c05HitHandsOutCopy = some true := by decide
 
 /-! ### Non-vacuity -/
 def a300 : RR := ⟨false, 300⟩
@@ -350,5 +428,18 @@ example : lazyRun false 86400 5 id old [T, T + 3 * sec / 2] =
     [.stale ⟨0, false, [⟨false, 5⟩], [], []⟩, .fresh ⟨0, false, [⟨false, 4⟩], [], []⟩] := by decide
 example : lazyRun false 86400 5 (guarded fresh300) old [T, T + 3 * sec / 2] =
     [.stale ⟨0, false, [⟨false, 5⟩], [], []⟩, .fresh ⟨0, false, [⟨false, 4⟩], [], []⟩] := by decide
+
+/-- The ownership facts matter: an answer good for 10 s whose reply a `ttl 600-0` behind the plugin raises to
+600 s. Were the records shared (`storeCopies = false`), the hit 2.5 s later would hand out 598 s for an answer
+that has 7.5 s left; a fixed `ttl 5` on an answer good for an hour would make every hit after 5 s carry TTL 1. -/
+def ten : Item := ⟨⟨0, false, [⟨false, 10⟩], [], []⟩, T, T + 10 * sec, T + 10 * sec⟩
+def hour : Item := ⟨⟨0, false, [⟨false, 3600⟩], [], []⟩, T, T + 3600 * sec, T + 3600 * sec⟩
+example : aliasRun true true false 5 false ten [.rewrite (clampRR 600 0), .hit (T + 5 * sec / 2)] = [.fresh ⟨0, false, [⟨false, 8⟩], [], []⟩] := by decide
+example : aliasRun false true false 5 true ten [.rewrite (clampRR 600 0), .hit (T + 5 * sec / 2)] = [.fresh ⟨0, false, [⟨false, 598⟩], [], []⟩] := by decide
+example : aliasRun false true false 5 true hour [.rewrite (setRR 5), .hit (T + 201 * sec / 2)] = [.fresh ⟨0, false, [⟨false, 1⟩], [], []⟩] := by decide
+example : aliasRun true true false 5 false hour [.rewrite (setRR 5), .hit (T + 201 * sec / 2)] = [.fresh ⟨0, false, [⟨false, 3500⟩], [], []⟩] := by decide
+/-- ... and were a hit to hand out the stored message itself, the second hit would age the already aged TTLs. -/
+example : aliasRun true false false 5 false hour [.hit (T + 201 * sec / 2), .hit (T + 401 * sec / 2)] =
+    [.fresh ⟨0, false, [⟨false, 3500⟩], [], []⟩, .fresh ⟨0, false, [⟨false, 3300⟩], [], []⟩] := by decide
 
 end Props.C05
